@@ -910,3 +910,38 @@ fn test_syntax_error_range_is_valid_slice() {
         let _ = format!("{err:#}");
     }
 }
+
+#[test]
+fn test_import_and_attr_assignment_locations() {
+    // a failing import statement reports its own line (it used to inherit the
+    // line of whatever was compiled before it, or none at all)
+    let mut env = Environment::new();
+    env.set_recursion_limit(1);
+    env.add_template("lib", "{% macro m() %}{% endmacro %}")
+        .unwrap();
+    for (source, line) in [
+        ("{% import \"lib\" as lib %}", 1),
+        ("first\n\n{% import \"lib\" as lib %}", 3),
+        ("first\n\n{% from \"lib\" import m %}", 3),
+    ] {
+        let err = env.render_str(source, ()).unwrap_err();
+        assert_eq!(err.detail(), Some("recursion limit exceeded"));
+        assert_eq!(err.line(), Some(line), "line of {err:?}");
+    }
+
+    // the span of an attribute assignment target does not leak into what follows
+    let mut env = Environment::new();
+    env.set_debug(true);
+    let err = env
+        .render_str(
+            "{% set ns = namespace() %}{% set ns.mode = 1 %}{% autoescape \"bogus\" %}{% endautoescape %}",
+            (),
+        )
+        .unwrap_err();
+    assert_eq!(err.detail(), Some("invalid value to autoescape tag"));
+    assert_eq!(err.line(), Some(1));
+    #[cfg(feature = "debug")]
+    {
+        assert_eq!(err.range(), None);
+    }
+}
